@@ -235,10 +235,15 @@ def run_case(case, tier):
                     cond_vars(c, abstracted_vars)
                 # ... and everything computed from them (y = y + u is correlated with the condition on u as well)
                 from ..lang.ast import rhs_vars
+                # ... and everything they are computed from (w = u + d: the event on w is a function of d as well)
+                pvars = set(src_vars)
                 changed = True
                 while changed:
                     changed = False
                     for a in K._all_assigns(prog.body):
+                        if a[1] in abstracted_vars and not (rhs_vars(a[2]) & pvars) <= abstracted_vars:
+                            abstracted_vars |= rhs_vars(a[2]) & pvars
+                            changed = True
                         if a[1] not in abstracted_vars and rhs_vars(a[2]) & abstracted_vars:
                             abstracted_vars.add(a[1])
                             changed = True
